@@ -93,6 +93,50 @@ def make_cases(rng, _n):
     return cases
 
 
+FIELD_NAMES = ["kind", "r#type", "r#match", "r#fn", "r#ref", "r#async", "actual", "value", "pattern", "expected", "r#kind", "__report", "__assert_struct_value", "f", "self_", "Some_"]
+FIELD_TEMPLATES = ["FN {{ {F}: == {F}, other: 1 }}", "FN {{ {F}: 5, .. }}", "_ {{ {F}: > 4, .. }}", "FN {{ other: 1, {F}: |x| *x == 5 }}", "EN::V {{ {F}: 5 }}", "FN {{ {F}.clone(): == 5, .. }}"]
+
+
+def field_name_twins(ck):
+    """The same program with the struct's field (and a caller local) named differently - ordinary names, raw identifiers whose plain
+    spelling is a keyword, names the expansion uses itself: the name must not change the outcome, and a valid assertion compiles."""
+    def make(rng, _n):
+        cases = []
+        k = 0
+        for name in FIELD_NAMES:
+            for ti, templ in enumerate(FIELD_TEMPLATES):
+                c = t3.Case()
+                c.id = k
+                k += 1
+                c.fname, c.templ = name, ti
+                c.forms = {"field-name": 1}
+                c.meanings = "(meanings)"
+                decl = "#[derive(Debug)] pub struct FN { pub %s: i32, pub other: i32 }\n#[derive(Debug)] pub enum EN { V { %s: i32 }, W }" % (name, name)
+                if ti == 4:
+                    t3.finish_case(c, decl, "EN", "EN::V { %s: 5 }" % name, "(int 0)", templ.format(F=name))
+                else:
+                    t3.finish_case(c, decl, "FN", "FN { %s: 5, other: 1 }" % name, "(int 0)", templ.format(F=name))
+                c.setup = "#[allow(non_snake_case, unused_variables)] let %s = 5i32;" % name
+                cases.append(c)
+        return cases
+
+    cases = t3.run_corpus(ck, "c07-field-names", 0, per_bin=12, positions=make)
+    ref = {c.templ: c for c in cases if c.fname == "kind"}
+    dist = {}
+    for c in cases:
+        r = ref[c.templ]
+        same = c.got[0] == r.got[0]
+        dist["%s: %s" % (c.fname, "same outcome as `kind`" if same else "DIFFERENT outcome")] = dist.get("%s: %s" % (c.fname, "same outcome as `kind`" if same else "DIFFERENT outcome"), 0) + 1
+        if r.got[0] not in ("pass", "fail"):
+            ck.report("twin-broken:field-name:%d" % c.templ, "the reference program of the field-name family does not run", dict(t3.describe(r)), no_input=True)
+        elif not same:
+            ck.report(("capture:helper:%s" % c.fname) if c.fname.startswith("__") else ("field-name:%s" % c.fname), "naming the matched struct's field `%s` instead of `kind` changes the outcome (%s instead of %s): the name of a field makes a valid assertion fail to compile or changes its verdict" % (c.fname, c.got[0], r.got[0]),
+                      dict(with_name=t3.describe(c), reference=t3.describe(r), rustc=c.got[2][:300]))
+    ck.corr_record("T3 field-name twins (the same struct, value, caller local and pattern with the field named differently: ordinary names, raw identifiers of keywords, the expansion's own names)",
+                   len(cases), len(cases), 0, dist, samples=[dict(invocation="assert_struct!(%s)" % cases[1].text, setup=cases[1].setup)], exhaustive=True,
+                   rule="%d names x %d pattern templates" % (len(FIELD_NAMES), len(FIELD_TEMPLATES)))
+
+
 def run(ck):
     ck.prove(["AsModel.Theorems.C07"])
     ck.build_harness("inproc")
@@ -128,6 +172,7 @@ def run(ck):
     if t2_mm and not found:
         ck.report("corr:T2-body", "the model of the code generator no longer matches the real expansion (%d inputs differ)" % len(t2_mm),
                   dict(broken="correspondence T2 (expansion tokens)", theorems=["C07_binders_reserved"], first=t2_mm[:3]), no_input=True)
+    field_name_twins(ck)
     import parsetie
     parsetie.light_tie(ck, "C07: the compiled programs' expectations read patterns with the model parser")
     ck.assumptions += ["proc-macro hygiene is modelled as call-site for every identifier the expansion creates (quote! semantics); rustc's name resolution is the oracle in the twin programs"]
